@@ -170,6 +170,14 @@ def ncf2uamiv(ncffile, outpath):
         time_e = time_s.copy() + tincr
         date_e += (time_e // 24).astype('i')
         time_e -= (time_e // 24) * 24
+        # YYJJJ + 1 after the last day of a year is day 1 of the next year
+        for i, d in enumerate(date_e):
+            yy, jjj = divmod(int(d), 1000)
+            year = (1900 if yy >= 70 else 2000) + yy
+            isleap = year % 4 == 0 and (year % 100 != 0 or year % 400 == 0)
+            ndays = 366 if isleap else 365
+            if jjj > ndays:
+                date_e[i] = ((yy + 1) % 100) * 1000 + (jjj - ndays)
     time_hdr['ibdate'] = date_s
     time_hdr['btime'] = time_s
     time_hdr['iedate'] = date_e
